@@ -53,7 +53,7 @@ func cmpOfRules(rs ...[]ARule) int {
 		for _, r := range l {
 			for _, g := range r.G {
 				switch g.O {
-				case "pre":
+				case "pre", "re":
 					return 3
 				case "lt", "le":
 					c = 2
